@@ -153,7 +153,15 @@ class H11Peer:
                 head, self.buf = self.buf[: idx + 4], self.buf[idx + 4 :]
                 self.cur = self._parse_head(head)
                 self.heads.append(self.cur)
-                spec_early = None
+                self.cur.answered_early = False
+                if not self.cur.error and getattr(self, "early", None) is not None:
+                    spec_e = self.early(self.cur)
+                    if spec_e is not None:
+                        data_e, close_e = render_response(spec_e, self.cur)
+                        out += data_e
+                        self.responded += 1
+                        self.cur.answered_early = True
+                        self.early_close = close_e
                 if self.cur.error:
                     self.garbage = True
                     self.closed = True
@@ -166,6 +174,11 @@ class H11Peer:
             self.requests.append(req)
             self.cur = None
             self.state = "idle"
+            if getattr(req, "answered_early", False):
+                if getattr(self, "early_close", False):
+                    self.closed = True
+                    break
+                continue
             spec = self.plan(req, len(self.requests) - 1)
             if spec is None:
                 continue  # no answer (peer stays silent)
@@ -274,7 +287,7 @@ class H11Peer:
     # what the reuse gate (C01) looks at
     def exchange_clean(self):
         """True iff the peer is not in the middle of a request and has answered all of them."""
-        return self.cur is None and not self.buf and self.responded >= len(self.requests)
+        return self.cur is None and not self.buf and self.responded >= len(self.requests) and self.responded >= len(self.heads)
 
 
 class TunnelPeer(H11Peer):
@@ -523,7 +536,17 @@ class H2ServerPeer:
         self.plan = plan or (lambda req: {"status": 200, "headers": [(b"x-tok", req.token or b"?")], "body": b"body-of-" + (req.token or b"?")})
         self.conn = h2.connection.H2Connection(h2.config.H2Configuration(client_side=False, validate_inbound_headers=False, header_encoding=None))
         if settings:
-            self.conn.local_settings.update(settings)
+            import h2.settings
+
+            init = {
+                h2.settings.SettingCodes.HEADER_TABLE_SIZE: 4096,
+                h2.settings.SettingCodes.INITIAL_WINDOW_SIZE: 65535,
+                h2.settings.SettingCodes.MAX_FRAME_SIZE: 16384,
+                h2.settings.SettingCodes.MAX_CONCURRENT_STREAMS: 100,
+                h2.settings.SettingCodes.MAX_HEADER_LIST_SIZE: 65536,
+            }
+            init.update(settings)
+            self.conn.local_settings = h2.settings.Settings(client=False, initial_values=init)
         self.started = False
         self.dec = H2Decoder()
         self.closed = False
@@ -584,7 +607,8 @@ class H2ServerPeer:
                 r = self.by_stream.get(ev.stream_id)
                 if r is not None:
                     r.body += ev.data
-                self.conn.acknowledge_received_data(ev.flow_controlled_length, ev.stream_id)
+                if getattr(self, "auto_ack_data", True):
+                    self.conn.acknowledge_received_data(ev.flow_controlled_length, ev.stream_id)
             elif isinstance(ev, h2.events.StreamEnded):
                 r = self.by_stream.get(ev.stream_id)
                 if r is not None:
